@@ -146,7 +146,9 @@ PEEK_NOPEEK = Contract(
 # view: absolute position  P = raw.pos - len(cache.content) + cache.pos   (raw.pos = octets obtained so far)
 INV = ['len(self._cache.content) <= self._raw.pos', 'self._raw.pos <= len(self._raw.data)',
        'self._cache.content == X.sub(self._raw.data, self._raw.pos - len(self._cache.content), self._raw.pos)',
-       '0 <= self._cache.pos', 'self._cache.pos <= len(self._cache.content)']
+       '0 <= self._cache.pos', 'self._cache.pos <= len(self._cache.content)',
+       # what is no longer cached has been counted: tell() + droppedOctets is the position in the underlying stream
+       'self._droppedOctets == self._raw.pos - len(self._cache.content)']
 P_ABS = '(self._raw.pos - len(self._cache.content) + self._cache.pos)'
 P_ABS_OLD = '(old(self._raw.pos) - len(old(self._cache.content)) + old(self._cache.pos))'
 K = z3.Int('DEFAULT_BUFFER_SIZE')      # abstracted to a symbolic K >= 1 (DESIGN 2.3)
@@ -155,7 +157,7 @@ W_GLOBALS = dict(io={'__name__': 'io', 'BytesIO': FnV(new_bytesio, 'io.BytesIO')
 
 def wrapper(raw_mode='partial'):
     return PObj('CachingStreamWrapper', _raw=PStream(raw_mode, bases=('IOBase',)), _cache=PBytesIO(),
-                _markedPosition=PInt())
+                _markedPosition=PInt(), _droppedOctets=PInt())
 
 
 def W(name, qual, params, ensures, raw_mode='partial', prop=None, **kw):
@@ -204,12 +206,14 @@ W_MARK_SET = W('markedPosition.setter', 'markedPosition', dict(value=PInt()), pr
                ensures=[
                    # C11: setting the mark at the current position changes nothing observable
                    ('absolute-position-kept', '%s == %s' % (P_ABS, P_ABS_OLD)),
-                   ('tell-stable', 'self._cache.pos == old(self._cache.pos)'),
+                   # the wrapper may number its positions anew (pinned by the tests); what the decoders measure lengths
+                   # with, tell() + droppedOctets, does not move
+                   ('consumed-count-stable', 'self._cache.pos + self._droppedOctets == old(self._cache.pos) + old(self._droppedOctets)'),
                    ('mark-is-current-position', 'self._markedPosition == self._cache.pos'),
                    ('unread-kept', 'X.sub(self._cache.content, self._cache.pos, len(self._cache.content)) == '
                                    'X.sub(old(self._cache.content), old(self._cache.pos), len(old(self._cache.content)))')],
                ghost={'DEFAULT_BUFFER_SIZE': PConst(K)},
-               external=['absolute-position-kept', 'tell-stable', 'unread-kept'])
+               external=['absolute-position-kept', 'consumed-count-stable', 'unread-kept'])
 
 
 
@@ -247,3 +251,31 @@ CONTRACTS = [READ_COMPLETE, READ_PARTIAL, IS_EOS_BYTESIO, IS_EOS_GENERIC, PEEK_N
              W_READ, W_PEEK, W_TELL, W_SEEK, W_SEEK_CUR, W_MARK_SET]
 
 
+
+
+# ---- the drop-proof position the decoders measure lengths with ------------------------------------------------------------------
+W_DROPPED = W('droppedOctets.getter', 'droppedOctets', {}, prop='getter',
+              ensures=[('position-in-the-underlying-stream', 'result + self._cache.pos == %s' % P_ABS),
+                       ('pure', '%s == %s' % (P_ABS, P_ABS_OLD))], external=['position-in-the-underlying-stream', 'pure'])
+
+
+def _consumed_substrate(ex, env):
+    """any substrate the decoders see: the caching wrapper (has droppedOctets) or a seekable stream (has not)"""
+    import z3 as _z
+    from pyvc.core import Obj as _Obj
+    fields = {'pos': _z.Int('substrate.tell')}
+    if ex.choose(_z.Bool('substrate.isCachingWrapper'), 'caching-wrapper'):
+        fields['droppedOctets'] = _z.Int('substrate.droppedOctets')
+    return _Obj('Stream', fields, {'tell': lambda ex2, self: self.fields['pos']}, name='substrate')
+
+
+CONSUMED = Contract(
+    id='ber.decoder::_consumed', file='pyasn1/codec/ber/decoder.py', qual='_consumed', properties=['C11', 'C05', 'C07'],
+    params=dict(substrate=PDerived(_consumed_substrate)),
+    globals={'isWrapper': z3.Bool('substrate.isCachingWrapper'), 'told': z3.Int('substrate.tell'),
+             'dropped': z3.Int('substrate.droppedOctets'), '_consumed': None},
+    ensures=[('wrapper-position-in-the-underlying-stream', 'isWrapper ==> result == told + dropped'),
+             ('seekable-stream-position', '(not isWrapper) ==> result == told')],
+    note='with the wrapper invariant tell() + droppedOctets == position in the underlying stream (contracts '
+         'CachingStreamWrapper.*#inv.5) this is the number of octets consumed, whatever was marked in between')
+CONTRACTS = CONTRACTS + [W_DROPPED, CONSUMED]
